@@ -88,11 +88,13 @@ Inductive op :=
 | OFinish                         (* rest of completeRequest: deregisterRequestState, then the continuation *)
 | OCtl                            (* a control message (PoisonPill, Panicking, Pause/ResumePassivation) passes dispatchOne's gate *)
 | ORequest (stash armed : bool)   (* Request/RequestName/RequestGrain succeeds or is rejected *)
-| OThen (r : nat).                (* RequestCall.Then *)
+| OThen (r : nat)                 (* RequestCall.Then *)
+| ORetune.                        (* EnableReentrancy / DisableReentrancy at runtime: only the default mode of future requests
+                                     changes (every modelled request carries its own mode); in-flight bookkeeping is untouched *)
 
 Definition is_turn_op (o : op) : bool :=
   match o with
-  | ODispatch | OFinish | OCtl | ORequest _ _ | OThen _ => true
+  | ODispatch | OFinish | OCtl | ORequest _ _ | OThen _ | ORetune => true
   | _ => false
   end.
 
@@ -306,6 +308,7 @@ Definition step (s : st) (o : op) : st :=
           else with_objs s (upd (objs s) r set_cb)
       | _, _ => s
       end
+  | ORetune => s
   end.
 
 Definition run (mx : Z) (ops : list op) : st := fold_left step ops (init mx).
